@@ -179,6 +179,15 @@ func (c *Ctx) canon(info *types.Info, e ast.Expr, o *canonOpts) string {
 				}
 			}
 		}
+		// a call of a small predicate of the repository (`hasLength(e)`) reads as the expression it returns
+		if !c.inCanonPredicate {
+			c.inCanonPredicate = true
+			be := c.inlinePredicate(info, x, o, 2)
+			c.inCanonPredicate = false
+			if be != nil {
+				return "(" + be.String() + ")"
+			}
+		}
 		// conversion
 		if tv, ok := info.Types[x.Fun]; ok && tv.IsType() && len(x.Args) == 1 {
 			return types.TypeString(tv.Type, func(p *types.Package) string { return p.Name() }) + "(" + c.canon(info, x.Args[0], o) + ")"
